@@ -137,8 +137,15 @@ func (d *differ) add(class, path, how, a, b string) {
 func scalarEqual(fd protoreflect.FieldDescriptor, a, b protoreflect.Value) bool {
 	switch fd.Kind() {
 	case protoreflect.FloatKind:
+		// like proto.Equal: every NaN equals every NaN; otherwise bit-exact (distinguishes -0 from +0)
+		if math.IsNaN(a.Float()) && math.IsNaN(b.Float()) {
+			return true
+		}
 		return math.Float32bits(float32(a.Float())) == math.Float32bits(float32(b.Float()))
 	case protoreflect.DoubleKind:
+		if math.IsNaN(a.Float()) && math.IsNaN(b.Float()) {
+			return true
+		}
 		return math.Float64bits(a.Float()) == math.Float64bits(b.Float())
 	case protoreflect.BytesKind:
 		return bytes.Equal(a.Bytes(), b.Bytes())
@@ -177,6 +184,11 @@ func canonUnknown(b []byte) string {
 }
 
 func (d *differ) message(cls, path string, a, b protoreflect.Message) {
+	// the classification names the innermost descriptor.proto message, not
+	// the route to it (nesting depth, message vs. file scope are irrelevant)
+	if n := string(a.Descriptor().FullName()); strings.HasPrefix(n, "google.protobuf.") && a.Descriptor().FullName() == b.Descriptor().FullName() {
+		cls = strings.TrimPrefix(n, "google.protobuf.")
+	}
 	// union of populated fields (extension fields are enumerated by Range)
 	type ent struct {
 		fd   protoreflect.FieldDescriptor
@@ -208,6 +220,9 @@ func (d *differ) message(cls, path string, a, b protoreflect.Message) {
 		e := ents[k]
 		fd := e.fd
 		c := cls + "." + pathElemClass(fd)
+		if pathElemClass(fd) == "<custom-field>" && strings.HasSuffix(cls, ".<custom-field>") {
+			c = cls // collapse nesting inside custom option messages
+		}
 		p := path + "." + pathElem(fd)
 		if !e.a.IsValid() || !e.b.IsValid() {
 			how := "only-stable"
@@ -271,6 +286,17 @@ func (d *differ) value(cls, path string, fd protoreflect.FieldDescriptor, pa, pb
 // field and at the two texts to say HOW they differ.
 func (d *differ) leafClass(cls string, fd protoreflect.FieldDescriptor, how string, pa, pb protoreflect.Message, a, b protoreflect.Value) string {
 	base := fmt.Sprintf("%s %s [%s]", cls, how, kindOf(fd))
+	if how == "value" && (fd.Kind() == protoreflect.DoubleKind || fd.Kind() == protoreflect.FloatKind) && !fd.IsList() {
+		x, y := a.Float(), b.Float()
+		switch {
+		case math.Nextafter(x, y) == y && fd.Kind() == protoreflect.DoubleKind:
+			base += " adjacent values (1 ulp apart)"
+		case fd.Kind() == protoreflect.FloatKind && math.Nextafter32(float32(x), float32(y)) == float32(y):
+			base += " adjacent values (1 ulp apart)"
+		case x == y:
+			base += " differ in the sign of zero"
+		}
+	}
 	if fd.FullName() != "google.protobuf.FieldDescriptorProto.default_value" || how != "value" {
 		return base
 	}
@@ -297,6 +323,8 @@ func (d *differ) leafClass(cls string, fd protoreflect.FieldDescriptor, how stri
 		y, e2 := strconv.ParseFloat(sb, 64)
 		if e1 == nil && e2 == nil && math.Float64bits(x) == math.Float64bits(y) {
 			detail = "texts denote the same float64"
+		} else if e1 == nil && e2 == nil && (math.Nextafter(x, y) == y) {
+			detail = "texts denote adjacent float64 values (1 ulp apart)"
 		}
 	case descriptorpb.FieldDescriptorProto_TYPE_ENUM:
 		detail = "enum value names"
@@ -324,6 +352,6 @@ func (d *differ) leafClass(cls string, fd protoreflect.FieldDescriptor, how stri
 // diffFDP compares two normalised descriptors.
 func diffFDP(stable, exp *descriptorpb.FileDescriptorProto, res linker.Resolver) []fdpDiff {
 	d := &differ{res: res}
-	d.message("file", "file", stable.ProtoReflect(), exp.ProtoReflect())
+	d.message("FileDescriptorProto", "file", stable.ProtoReflect(), exp.ProtoReflect())
 	return d.diffs
 }
